@@ -69,7 +69,7 @@ def _scene(ctx, shape, sym, periodic, detector=None):
 
         def upd(it_, a, k):
             received["E"], received["H"] = k.get("E"), k.get("H")
-            return {"rec": 0}
+            return {"rec": NdArr((1,), [0])}
 
         objs.append(Obj(D, dict(name="det", inverse=False, exact_interpolation=True, _is_on_at_time_step_arr=[True, True], _grid_slice_tuple=detector, update=Builtin("update", upd)), "det"))
     OC = ix.cls("fdtdx.fdtd.container.ObjectContainer")
@@ -102,7 +102,7 @@ def _unfold(it, F, sym, ft):
 
 
 def _step(it, sc, objs, cfg, E, H, ie, im, steps=1, with_detector=False):
-    arrays = sc.arrays(fields=sc.fields(E=E, H=H), inv_permittivities=ie, inv_permeabilities=im, detector_states={"det": {"rec": 0}} if with_detector else {})
+    arrays = sc.arrays(fields=sc.fields(E=E, H=H), inv_permittivities=ie, inv_permeabilities=im, detector_states={"det": {"rec": NdArr((1,), [0])}} if with_detector else {})
     state = (0, arrays)
     stub_repo_calls(it, {"_check_updated_state_layout": lambda it_, a, k: None})
     try:
